@@ -34,6 +34,7 @@ import common
 from common import sx, unsx, names
 import tftp_common as T
 import fake_net
+import nspatch
 from vinegar.tftp import server as S
 from vinegar.tftp.protocol import TransferMode
 
@@ -108,6 +109,8 @@ class PredHandler(S.TftpRequestHandler):
         return name == arg
 
     def _handle(self, filename, client_address, server_address, context):
+        if self.port is not None:
+            self.port.handled(self.index, filename, client_address, server_address)
         return io.BytesIO(b"xy")
 
     @property
@@ -123,11 +126,14 @@ def handler_sx(spec):
 
 
 class _ServerSock:
-    """the request-port socket: scripted recvfrom, recording sendto that fails for port 0"""
+    """the request-port socket (the first socket the server creates in start()): scripted recvfrom/recvmsg, recording
+    sendto that fails for port 0 and for the unreachable requester"""
     def __init__(self, port):
         self.port = port
         self.script = []
         self.current = -1
+        self.drained = threading.Event()
+        self.closed = False
 
     def getsockname(self):
         return DST
@@ -135,16 +141,29 @@ class _ServerSock:
     def settimeout(self, t):
         pass
 
+    def bind(self, addr):
+        pass
+
+    def setsockopt(self, level, opt, value):
+        # whether the server uses recvmsg with ancillary data is decided by its own start(): IPV6_RECVPKTINFO
+        # "is not available" unless the case asks for it
+        if level == real_socket.IPPROTO_IPV6 and opt == getattr(real_socket, "IPV6_RECVPKTINFO", -1) \
+                and self.port.pktinfo is None:
+            raise OSError(errno.ENOPROTOOPT, "Protocol not available")
+
     def recvfrom(self, n):
-        self.port.armed = None
+        port = self.port
+        port.loop_ident = threading.get_ident()
+        port.armed = None
         if self.script:
             self.current += 1
             data, addr = self.script.pop(0)
-            f = self.port.fault
+            f = port.fault
             if f is not None and f[0] == self.current:
-                self.port.armed = f                      # one-shot: the first time control reaches the station
+                port.armed = f                           # one-shot: the first time control reaches the station
             return bytes(data)[:n], addr
-        self.port.server._shutdown_requested = True     # what stop() does; the loop leaves at its next round
+        self.drained.set()                               # everything was taken: the harness calls stop()
+        time.sleep(0.0003)
         raise real_socket.timeout("timed out")
 
     def recvmsg(self, n, ancsize=0):
@@ -160,7 +179,7 @@ class _ServerSock:
             raise OSError(errno.ENETUNREACH, "Network is unreachable")
 
     def close(self):
-        pass
+        self.closed = True
 
 
 class _TransferSock(fake_net.FakeSock):
@@ -170,35 +189,46 @@ class _TransferSock(fake_net.FakeSock):
 
 
 class _ExcLog(logging.Handler):
-    """log records with exc_info written by the serve-loop thread (this thread)"""
+    """log records that report an UNHANDLED exception of the serve-loop thread: exc_info at level ERROR or above
+    (logger.exception).  A handled exception that a branch chooses to log with its traceback at a lower level
+    (e.g. the ValueError of an undecodable request at WARNING) is not the internal-error path."""
     def __init__(self):
         super().__init__()
         self.port = None
-        self.me = threading.get_ident()
 
     def emit(self, record):
-        if record.exc_info and record.thread == self.me and self.port is not None:
+        port = self.port
+        if record.exc_info and record.levelno >= logging.ERROR and port is not None \
+                and record.thread == port.loop_ident:
             cls = record.exc_info[0].__name__ if record.exc_info[0] else "exc"
-            self.port.events.append((self.port.sock.current, "logexc", cls))
+            port.events.append((port.sock.current, "logexc", cls))
+
+
+# the class of the per-transfer object, found by the shape of its constructor (not by its name); None -> mode and
+# option dictionary of a started transfer cannot be observed and are not compared (see docs/C09-port.md)
+_REQUEST_CLASS = nspatch.find_class(S, ("transfer_mode", "options", "client_address"))
+_REAL_ADDR_STR = getattr(__import__("vinegar.utils.socket", fromlist=["x"]), "socket_address_to_str", None)
 
 
 class Port:
-    """one real TftpServer per handler set, never started; its _run is called for each case"""
+    """one real TftpServer per handler set; for each case it is started (public start()) on a scripted fake socket
+    and stopped (public stop()) when the script has been taken"""
     def __init__(self, specs):
         self.specs = specs
         self.events = []
-        self.created = []
         self.handlers = [PredHandler(s, self, i) for i, s in enumerate(specs)]
         self.server = S.TftpServer(self.handlers, bind_address="::1", bind_port=0)
-        self.sock = _ServerSock(self)
+        self.sock = None
         self.fault = None
         self.armed = None
-        self.me = threading.get_ident()
+        self.pktinfo = None
+        self.loop_ident = None
+        self.pending = {}                   # transfer thread -> its start record
 
     def fire(self, station, hidx, sub=None):
         """raise the injected exception if this is the armed station (serve-loop thread only, once)"""
         f = self.armed
-        if f is None or threading.get_ident() != self.me or f[1] != station:
+        if f is None or threading.get_ident() != self.loop_ident or f[1] != station:
             return
         if station in (ST_PREPARE, ST_CAN_HANDLE) and f[2] != hidx:
             return
@@ -207,97 +237,126 @@ class Port:
         self.armed = None
         raise EXC_CLASSES[f[3]]("injected fault")
 
+    def handled(self, handler_index, filename, client_address, server_address):
+        """PredHandler.handle was called (public interface, in the transfer thread): which handler, for what"""
+        rec = self.pending.get(threading.current_thread())
+        if rec is not None:
+            rec.update(handler=handler_index, filename=filename, client=client_address, server=server_address)
+
     def react(self, items, exclog, pktinfo=None, fault=None):
         """canonical observations of what ONE run of the serve loop did for the datagrams `items` = [(datagram,
         source address), ...] arriving one after the other, followed by a liveness probe; one observation per item"""
         del self.events[:]
-        del self.created[:]
+        self.pending = {}
         exclog.port = self
         srv = self.server
         self.pktinfo = pktinfo
         self.fault = fault
         self.armed = None
-        self.sock.script = [(bytes(d), src) for (d, src) in items] + [(PROBE, PROBE_ADDR)]
-        self.sock.current = -1
-        srv._socket = self.sock
-        srv._have_pktinfo = pktinfo is not None
-        srv._shutdown_requested = False
+        self.loop_ident = None
+        sock = self.sock = _ServerSock(self)
+        sock.script = [(bytes(d), src) for (d, src) in items] + [(PROBE, PROBE_ADDR)]
         port = self
         clock = [0.0]
         want_dst = ANCILLARY[pktinfo][1]
-
-        class Rec(port.real_request_class):
-            def __init__(self, filename, transfer_mode, options, client_address, server_address, handler_function,
-                         *rest):
-                super().__init__(filename, transfer_mode, options, client_address, server_address, handler_function,
-                                 *rest)
-                owner = getattr(handler_function, "__self__", None)
-                idx = next((i for i, h in enumerate(port.handlers) if h is owner), 99)
-                port.created.append(self)
-                port.events.append((port.sock.current, "start", filename, transfer_mode, dict(options),
-                                    client_address, server_address, idx))
-        shim = types.SimpleNamespace(**{k: getattr(real_socket, k) for k in dir(real_socket) if not k.startswith("__")})
-        shim.socket = lambda **k: _TransferSock([], clock, [])
-        old = (S.socket, S.time, S._TftpReadRequest)
-        S.socket, S.time, S._TftpReadRequest = shim, types.SimpleNamespace(monotonic=lambda: clock[0]), Rec
-        old_thr, old_str = S.threading, S.socket_address_to_str
         started = []                                  # every thread the server code starts during this run
+        escaped = []
+        made = []
+
+        def make_socket(*a, **k):                     # the first socket is the request socket
+            made.append(1)
+            return sock if len(made) == 1 else _TransferSock([], clock, [])
 
         class FaultThread(threading.Thread):
             def start(self_t):
-                port.fire(ST_THREAD, None)
+                if threading.get_ident() == port.loop_ident and port.loop_ident is not None:
+                    port.fire(ST_THREAD, None)
+                    rec = {"idx": sock.current, "thread": self_t}
+                    port.pending[self_t] = rec
+                    port.events.append((sock.current, "start", rec))
                 started.append(self_t)
                 return super().start()
-        thr = types.SimpleNamespace(**{k: getattr(threading, k) for k in dir(threading) if not k.startswith("__")})
-        thr.Thread = FaultThread
-        S.threading = thr
-        patched_levels = []
-        if fault is not None:
+
+            def run(self_t):
+                try:
+                    super().run()
+                except BaseException as ex:           # nothing may escape a thread of the server
+                    escaped.append(type(ex).__name__)
+        replace = {}
+        if _REQUEST_CLASS is not None:
+            import inspect
+            sig = inspect.signature(_REQUEST_CLASS.__init__)
+
+            class Rec(_REQUEST_CLASS):
+                def __init__(self_r, *a, **k):
+                    before = len(port.events)
+                    super().__init__(*a, **k)
+                    try:
+                        ba = sig.bind(self_r, *a, **k).arguments
+                    except TypeError:
+                        return
+                    for e in port.events[before:]:
+                        if e[1] == "start":
+                            e[2].update(mode=ba.get("transfer_mode"), options=dict(ba.get("options") or {}))
+            replace[_REQUEST_CLASS] = Rec
+        patched = []
+        if fault is not None and _REAL_ADDR_STR is not None:
             def addr_str(a):
                 port.fire(ST_LOG, None, 0)
-                return old_str(a)
-            S.socket_address_to_str = addr_str
+                return _REAL_ADDR_STR(a)
+            replace[_REAL_ADDR_STR] = addr_str
+        undo = nspatch.patch_namespace(S, make_socket=make_socket, monotonic=lambda: clock[0], thread_class=FaultThread,
+                                       replace=replace)
+        if fault is not None:
             in_exception = [False]
             # every logger method a branch could use for its log statement - whichever level it logs at is not
             # fixed by the property; `exception` (what the catch-all itself needs) never raises
-            for lvl in ("debug", "info", "warning", "warn", "error", "critical", "fatal", "log"):
-                if not hasattr(S.logger, lvl):
-                    continue
+            for lg in nspatch.loggers(S):
+                for lvl in ("debug", "info", "warning", "warn", "error", "critical", "fatal", "log"):
+                    if not hasattr(lg, lvl):
+                        continue
 
-                def mk(real):
-                    def method(*a, **k):
-                        if not in_exception[0]:
-                            port.fire(ST_LOG, None, 1)
-                        return real(*a, **k)
-                    return method
-                setattr(S.logger, lvl, mk(getattr(S.logger, lvl)))
-                patched_levels.append(lvl)
-            real_exception = S.logger.exception
+                    def mk(real):
+                        def method(*a, **k):
+                            if not in_exception[0]:
+                                port.fire(ST_LOG, None, 1)
+                            return real(*a, **k)
+                        return method
+                    setattr(lg, lvl, mk(getattr(lg, lvl)))
+                    patched.append((lg, lvl))
 
-            def exception(*a, **k):
-                in_exception[0] = True
-                try:
-                    return real_exception(*a, **k)
-                finally:
-                    in_exception[0] = False
-            S.logger.exception = exception
-            patched_levels.append("exception")
-        escaped = None
+                def mkx(real_exception):
+                    def exception(*a, **k):
+                        in_exception[0] = True
+                        try:
+                            return real_exception(*a, **k)
+                        finally:
+                            in_exception[0] = False
+                    return exception
+                lg.exception = mkx(lg.exception)
+                patched.append((lg, "exception"))
         hang = False
+        start_failed = None
         try:
             try:
-                srv._run()
-            except BaseException as ex:                 # nothing may escape the serve loop
-                escaped = type(ex).__name__
-            for t in started:                      # not by a private attribute name of the request object
+                srv.start()
+            except BaseException as ex:
+                start_failed = type(ex).__name__
+            loop = started[0] if started else None
+            deadline = time.time() + 20
+            while loop is not None and loop.is_alive() and not sock.drained.is_set() and time.time() < deadline:
+                sock.drained.wait(0.002)
+            try:
+                srv.stop()
+            except BaseException as ex:
+                escaped.append("stop:" + type(ex).__name__)
+            for t in started:
                 t.join(20)
                 hang = hang or t.is_alive()
         finally:
-            S.socket, S.time, S._TftpReadRequest = old
-            S.threading, S.socket_address_to_str = old_thr, old_str
-            for lvl in patched_levels:
-                S.logger.__dict__.pop(lvl, None)
-            srv._shutdown_requested = False
+            undo()
+            for lg, lvl in patched:
+                lg.__dict__.pop(lvl, None)
             self.fault = self.armed = None
         n = len(items)
         obs = [[] for _ in range(n)]
@@ -311,31 +370,39 @@ class Port:
                 p = T.parse_packet(e[2])
                 obs[e[0]].append(p if (p[0] == 5 and e[3] == src) else [99, e[2]])
             elif e[1] == "start":
-                _, _, fn, mode, opts, cli, dst, idx = e
-                if cli == src and dst == want_dst and isinstance(mode, TransferMode):
-                    obs[e[0]].append([1, fn.encode("latin-1", "replace"), int(mode),
+                rec = e[2]
+                mode = rec.get("mode")
+                ok = (rec.get("client") == src and rec.get("server") == want_dst and "filename" in rec
+                      and (mode is None or isinstance(mode, TransferMode)))
+                if ok:
+                    opts = rec.get("options")
+                    obs[e[0]].append([1, rec["filename"].encode("latin-1", "replace"),
+                                      None if mode is None else int(mode),
+                                      None if opts is None else
                                       [[k.encode("latin-1", "replace"), v.encode("latin-1", "replace")]
-                                       for k, v in opts.items()], idx])
+                                       for k, v in opts.items()], rec.get("handler", 99)])
                 else:
-                    obs[e[0]].append([99, repr(e[2:]).encode("latin-1", "replace")[:200]])
+                    shown = {k: v for k, v in rec.items() if k != "thread"}
+                    obs[e[0]].append([99, repr(shown).encode("latin-1", "replace")[:200]])
             else:
                 obs[e[0]].append([4])
-        last_taken = min(self.sock.current, n - 1)
+        last_taken = min(sock.current, n - 1)
         for i in range(last_taken + 1, n):                # never taken off the socket: the loop had ended
             obs[i].append([7])
         # alive = the probe was taken off the socket and answered (what it is answered with is a case of its own)
-        alive = (not self.sock.script and any(e[1] == "send" and e[3] == PROBE_ADDR for e in probe_events))
+        alive = (not sock.script and any(e[1] == "send" and e[3] == PROBE_ADDR for e in probe_events))
         if n and last_taken == n - 1:
-            if escaped is not None:
-                obs[n - 1].append([99, b"exception escaped TftpServer._run: " + escaped.encode()])
+            if start_failed is not None:
+                obs[n - 1].append([99, b"TftpServer.start raised " + start_failed.encode()])
+            if escaped:
+                obs[n - 1].append([99, b"exception escaped a server thread: " + ",".join(escaped).encode()])
             if hang:
-                obs[n - 1].append([99, b"transfer thread did not end"])
+                obs[n - 1].append([99, b"a server thread did not end"])
             if not alive:
                 obs[n - 1].append([7])
         return obs
 
 
-Port.real_request_class = S._TftpReadRequest
 
 
 # ----------------------------------------------------------------------------- generators
@@ -497,7 +564,7 @@ def gen_cases(tier, rng):
     for (d, h, src) in gen_single(tier, rng):
         g = groups.setdefault(h, [])
         g.append((d, src))
-        if len(g) == 8:
+        if len(g) == 16:
             yield (tuple(g), h, None)
             del g[:]
         if len(pool) < 3000 and (len(d) > 4 or rng.random() < 0.02):
@@ -557,8 +624,22 @@ def evaluate(cases, ports, exclog):
     """-> [(case, impl observations per item, model observations per item, clauses failed on the model, ... on impl)]"""
     cases = [c if len(c) == 4 else c + (None,) for c in cases]
     obs = [ports[h].react([(d, SOURCES[src]) for (d, src) in items], exclog, pk, ft) for (items, h, pk, ft) in cases]
-    lines = [line(d, h, src, o, ft if (ft is not None and ft[0] == i) else None)
-             for (items, h, pk, ft), ol in zip(cases, obs) for i, ((d, src), o) in enumerate(zip(items, ol))]
+    def mk_lines(blank):
+        return [line(d, h, src, [] if blank else o, ft if (ft is not None and ft[0] == i) else None)
+                for (items, h, pk, ft), ol in zip(cases, obs) for i, ((d, src), o) in enumerate(zip(items, ol))]
+    if any(x[0] == 1 and (x[2] is None or x[3] is None) for ol in obs for o in ol for x in o):
+        # mode / option dictionary of a started transfer could not be observed (no constructor of the expected shape
+        # in the module): they are taken from the model, i.e. not compared
+        flat = [o for ol in obs for o in ol]
+        for o, out in zip(flat, common.run_model("c09port", mk_lines(True))):
+            m0 = unsx(out)[0] if not out.startswith(("!", "#")) else []
+            starts = [y for y in m0 if y[0] == 1]
+            for x in o:
+                if x[0] == 1 and (x[2] is None or x[3] is None):
+                    y = starts[0] if starts else [1, b"", 2, [], 0]
+                    x[2] = y[2] if x[2] is None else x[2]
+                    x[3] = y[3] if x[3] is None else x[3]
+    lines = mk_lines(False)
     outs = iter(common.run_model("c09port", lines))
     res = []
     for case, ol in zip(cases, obs):
